@@ -380,7 +380,10 @@ def run_check(modname: str, tier: str, seed: int, jobs: Optional[int] = None) ->
         else:
             unknown.append(v)
     max_report = int(os.environ.get("MCK_MAX_REPORT", "8"))
-    for v in unknown[:max_report]:
+    if os.environ.get("MCK_LIST"):
+        for v in unknown:
+            print(f"CLASS n={v['n']} sig={json.dumps(v['sig'], sort_keys=True)}\n      {v['msg'][:600]}")
+    for v in unknown[:max(1, max_report)]:
         rid = f"{h64(v['key'] + json.dumps(v['case'], sort_keys=True, default=str)):016x}"
         path = os.path.join(OUT_DIR, "replays", prop, f"{rid}.json")
         with open(path, "w") as f:
